@@ -11,6 +11,12 @@ fn max_allele(gts: &[String]) -> usize {
     gts.iter().flat_map(|g| g.split(|c| c == '/' || c == '|')).filter_map(|a| a.parse::<usize>().ok()).max().unwrap_or(0)
 }
 
+/// REF allele of record `i`: one base, except every seventh record, which carries a long reference allele (16 / 130 / 300 bases:
+/// beyond the inline length of a BCF typed string, beyond its 8-bit length, far beyond)
+pub fn ref_allele(i: usize) -> String {
+    if i % 7 == 3 { "ACGT".repeat(100)[..[16usize, 130, 300][(i / 7) % 3]].to_string() } else { "A".to_string() }
+}
+
 pub fn vcf_text(cs: &CallSet) -> Vec<u8> {
     let mut s = String::new();
     s.push_str("##fileformat=VCFv4.3\n");
@@ -37,9 +43,9 @@ pub fn vcf_text(cs: &CallSet) -> Vec<u8> {
         let info = if cs.extras { if ma <= 1 { "DP=17;AF=0.25".to_string() } else { "DP=17".to_string() } } else { ".".to_string() };
         let fmt = if cs.extras { "GT:DP:GQ" } else { "GT" };
         match r.corrupt.as_deref() {
-            Some("badpos") => { s.push_str(&format!("{}\tx{}\t.\tA\t{}\t.\t.\t{}\t{}", r.contig, r.pos, alt, info, fmt)); }
+            Some("badpos") => { s.push_str(&format!("{}\tx{}\t.\t{}\t{}\t.\t.\t{}\t{}", r.contig, r.pos, ref_allele(i), alt, info, fmt)); }
             Some("trunc") => { s.push_str(&format!("{}\t{}\t.\tA\n", r.contig, r.pos)); continue; }
-            _ => { s.push_str(&format!("{}\t{}\t.\tA\t{}\t.\t.\t{}\t{}", r.contig, r.pos, alt, info, fmt)); }
+            _ => { s.push_str(&format!("{}\t{}\t.\t{}\t{}\t.\t.\t{}\t{}", r.contig, r.pos, ref_allele(i), alt, info, fmt)); }
         }
         for (j, g) in r.gts.iter().enumerate() {
             s.push('\t'); s.push_str(g);
@@ -141,19 +147,19 @@ pub fn raw_bcf_simple(cs: &CallSet) -> Option<Vec<u8>> {
     out.extend_from_slice(b"BCF\x02\x02");
     out.extend_from_slice(&((text.len() + 1) as u32).to_le_bytes());
     out.extend_from_slice(text.as_bytes()); out.push(0);
-    for r in &cs.recs {
+    for (i, r) in cs.recs.iter().enumerate() {
         let ma = max_allele(&r.gts);
         let alts = ["C", "G", "T", "CA", "CAA", "CAAA", "CT", "CTT", "CTTT", "CG", "CGG", "CGGG"];
         let nalt = ma.max(1).min(alts.len());
         let mut shared = Vec::new();
         shared.extend_from_slice(&(contigs.iter().position(|c| *c == r.contig)? as i32).to_le_bytes());
         shared.extend_from_slice(&((r.pos as i32) - 1).to_le_bytes());
-        shared.extend_from_slice(&1i32.to_le_bytes());
+        shared.extend_from_slice(&(ref_allele(i).len() as i32).to_le_bytes());
         shared.extend_from_slice(&0x7F80_0001u32.to_le_bytes());
         shared.extend_from_slice(&((((1 + nalt) as u32) << 16) | 0).to_le_bytes());
         shared.extend_from_slice(&((1u32 << 24) | cs.cols.len() as u32).to_le_bytes());
         typed_string(&mut shared, b"");                 // ID missing
-        typed_string(&mut shared, b"A");
+        typed_string(&mut shared, ref_allele(i).as_bytes());
         for a in &alts[..nalt] { typed_string(&mut shared, a.as_bytes()); }
         shared.push(0x00);                                // FILTER: empty vector
         let mut indiv = Vec::new();
